@@ -334,8 +334,9 @@ class C01(Check):
             if mode == 'bare':
                 s['end'] = core.weighted(orng, [(None, 6), ('finish_twice', 1),
                                                 ('empty_then_finish', 1)])
-            s['kind'] = core.weighted(orng, [(None, 8), ('bytearray', 1),
-                                             ('memoryview', 1)])
+                if orng.random() < 0.12:
+                    s['tracing'] = True
+            s['kind'] = core.weighted(orng, imgsim.CHUNK_KINDS)
             if qrng.random() < (0.7 if fam == 'boundary' else 0.4):
                 s['q'] = gen_qplan(qrng, streams.n_chunks(r))
             scheds.append(s)
@@ -598,7 +599,8 @@ class C01(Check):
             bad = []
             for name in F.FORMATS:
                 r = imgsim.drive_bare(name, data, sizes, qp,
-                                      kind=s.get('kind'), end=s.get('end'))
+                                      kind=s.get('kind'), end=s.get('end'),
+                                      tracing=bool(s.get('tracing')))
                 per[name] = r['verdict']
                 errors[name] = r['error']
                 for pk in r['probes']:
